@@ -140,6 +140,9 @@ InputIdx(op) == CASE op.k \in {"add", "sub", "remap_curie", "remap_uri", "rewire
                   [] op.k = "chain" -> {op.is[k] : k \in 1..Len(op.is)}
                   [] OTHER -> {}
 InputsOK(pre, op) == \A i \in InputIdx(op) : i \in 1..Len(pre) /\ P_C05_inv(pre[i])
+\* the declarative monitors only need the RECORDS of the inputs to form a strict converter: a converter built through the
+\* public API whose lookup structures went stale is still an input the properties quantify over
+InputsStrict(pre, op) == \A i \in InputIdx(op) : i \in 1..Len(pre) /\ OneOwner(pre[i])
 
 \* outcome comparison: kind, exception family / class as far as the properties fix them
 OutMatch(spec, log) ==
@@ -263,7 +266,7 @@ EventBad(t, l) ==
   UNION {RowBad(post[ev.pt[q].i], ev.pt[q]) : q \in 1..Len(ev.pt)} \cup
   UNION {PRowBad(post[ev.ppt[q].i], ev.ppt[q]) : q \in 1..Len(ev.ppt)} \cup
   UNION {MonBad(ev, i, post[i]) : i \in {ev.pt[q].i : q \in 1..Len(ev.pt)} \cup {ev.ppt[q].i : q \in 1..Len(ev.ppt)}} \cup
-  (IF ok THEN OpMonBad(pre, post, ev.op, ev.out) ELSE {}) \cup
+  (IF InputsStrict(pre, ev.op) THEN OpMonBad(pre, post, ev.op, ev.out) ELSE {}) \cup
   UpgradeBad(ev.op, ev.out)
 
 VARIABLES tid, l
